@@ -150,18 +150,45 @@ func c07Parses(src []byte) error {
 var hunkRe = regexp.MustCompile(`^@@ -(\d+)(?:,(\d+))? \+(\d+)(?:,(\d+))? @@`)
 
 // applyUnifiedDiff applies a unified diff (as printed by gopatch --diff for
-// one file) to the original text.
+// one file, without the two header lines) to the original text, exactly:
+// lines keep whatever precedes their line feed (a carriage return, say), and
+// "\ No newline at end of file" takes the line feed off the line before it.
 func applyUnifiedDiff(orig, diff string) (string, error) {
 	if strings.TrimSpace(diff) == "" {
 		return orig, nil
 	}
-	ol := strings.Split(orig, "\n")
+	ol := strings.SplitAfter(orig, "\n")
 	if len(ol) > 0 && ol[len(ol)-1] == "" {
 		ol = ol[:len(ol)-1]
 	}
-	var out []string
+	// Diff lines, each with its line feed; a no-newline marker removes the
+	// line feed of its predecessor.
+	var lines []string
+	for _, l := range strings.SplitAfter(diff, "\n") {
+		if l == "" {
+			continue
+		}
+		if strings.HasPrefix(l, "\\") {
+			if len(lines) == 0 {
+				return "", fmt.Errorf("no-newline marker without a line before it")
+			}
+			lines[len(lines)-1] = strings.TrimSuffix(lines[len(lines)-1], "\n")
+			continue
+		}
+		if !strings.HasSuffix(l, "\n") {
+			l += "\n" // the last line of the diff text itself
+		}
+		lines = append(lines, l)
+	}
+	var out strings.Builder
 	pos := 0 // index into ol
-	lines := strings.Split(strings.TrimRight(diff, "\n"), "\n")
+	// same reports whether line pos of the original is the given diff text. A
+	// last line of the original without a line feed also matches a diff line
+	// that carries no no-newline marker (gopatch never prints that marker; how
+	// the missing line feed is then accounted for is judged by the caller).
+	same := func(pos int, text string) bool {
+		return ol[pos] == text || pos == len(ol)-1 && !strings.HasSuffix(ol[pos], "\n") && ol[pos]+"\n" == text
+	}
 	i := 0
 	for i < len(lines) && !strings.HasPrefix(lines[i], "@@") {
 		i++
@@ -181,41 +208,43 @@ func applyUnifiedDiff(orig, diff string) (string, error) {
 		if start-1 > len(ol) {
 			return "", fmt.Errorf("hunk starts beyond the end of the file")
 		}
-		out = append(out, ol[pos:start-1]...)
-		pos = start - 1
+		for ; pos < start-1; pos++ {
+			out.WriteString(ol[pos])
+		}
 		i++
 		for i < len(lines) && !strings.HasPrefix(lines[i], "@@") {
 			l := lines[i]
 			switch {
-			case l == "":
+			case l == "\n":
 				// an empty context line printed without its leading space
-				if pos >= len(ol) || ol[pos] != "" {
+				if pos >= len(ol) || ol[pos] != "\n" {
 					return "", fmt.Errorf("context mismatch at line %d", pos+1)
 				}
-				out = append(out, "")
+				out.WriteString("\n")
 				pos++
 			case l[0] == ' ':
-				if pos >= len(ol) || ol[pos] != l[1:] {
+				if pos >= len(ol) || !same(pos, l[1:]) {
 					return "", fmt.Errorf("context mismatch at line %d: %q", pos+1, l)
 				}
-				out = append(out, l[1:])
+				out.WriteString(ol[pos])
 				pos++
 			case l[0] == '-':
-				if pos >= len(ol) || ol[pos] != l[1:] {
+				if pos >= len(ol) || !same(pos, l[1:]) {
 					return "", fmt.Errorf("deletion mismatch at line %d: %q", pos+1, l)
 				}
 				pos++
 			case l[0] == '+':
-				out = append(out, l[1:])
-			case l[0] == '\\':
+				out.WriteString(l[1:])
 			default:
 				return "", fmt.Errorf("bad diff line %q", l)
 			}
 			i++
 		}
 	}
-	out = append(out, ol[pos:]...)
-	return strings.Join(out, "\n") + "\n", nil
+	for ; pos < len(ol); pos++ {
+		out.WriteString(ol[pos])
+	}
+	return out.String(), nil
 }
 
 func evalC07(cs *c07Case) (sig, msg string, hit bool, judged bool) {
